@@ -30,6 +30,7 @@ type runner struct {
 	accMuxEdit                bool // C07 non-triviality (part 2)
 	hist                      map[string]int
 	checkView                 bool
+	ctor                      bool // a message whose bit count is not representable exists (finding "ctor")
 }
 
 func newRunner() *runner {
@@ -304,6 +305,12 @@ func (r *runner) step(o op) bool {
 	var enumRefsAttached, enumRefsAll []int
 	if ep.applies {
 		enumRefsAttached, enumRefsAll = r.attachedRefs(ep.e), r.allRefs(ep.e)
+	}
+	if (o.k == "newmsg" || o.k == "newmsgbus") && (o.z > 1<<60-1 || o.z < -(1<<60)) {
+		r.ctor = true
+	}
+	if zone == "" && r.ctor {
+		zone = "ctor"
 	}
 	res := r.w.apply(o)
 	r.ops = append(r.ops, o)
